@@ -49,9 +49,11 @@ theorem encMid_pre {o : Oracle} {s s' : St} {site : Nat} {il ff : Bool} {req : R
   have hb : s.unprocessed % two32 ≤ s.unprocessed := Nat.mod_le _ _
   have h1 := hI.fl_le
   have h2 := hI.lp_le
-  rcases hM.pos with ⟨p1, _⟩ | ⟨p1, _⟩
+  have hpos := hM.pos
+  generalize s.unprocessed % two32 = m at hb hpos
+  rcases hpos with ⟨p1, _⟩ | ⟨p1, _⟩
   · refine ⟨by omega, by omega, hf.2.1⟩
-  · have : min 2 (s.unprocessed % two32) ≤ s.unprocessed % two32 := Nat.min_le_right _ _
+  · have : min 2 m ≤ m := Nat.min_le_right _ _
     refine ⟨by omega, by omega, hf.2.1⟩
 
 /-- positions after a successful `encode_data`, as a function of its event -/
